@@ -61,9 +61,10 @@ class EFLRItem:
 
         self._check_parent(parent)
         self._parent = parent  #: EFLRSet instance this item belongs to
-        self._parent.register_item(self)
-
         try:
+            # (registration inside the try block: an exception arriving right after it - e.g. an interrupt - must roll it back too)
+            self._parent.register_item(self)
+
             #: origin reference value, common for records sharing origin
             self._origin_reference: Union[int, None] = self._validate_origin_reference(origin_reference,
                                                                                       allow_none=True)
